@@ -6,7 +6,9 @@ REV=""
 if [ "$1" = "-R" ]; then REV="-R"; shift; fi
 [ "$1" = "--" ] && shift
 if [ -n "$(git -C /repo status --porcelain --untracked-files=no)" ]; then echo "/repo is not clean"; exit 3; fi
-restore() { git -C /repo checkout -- . ; }
+EVBAK=$(mktemp -d)
+cp -r /verif/evidence/. "$EVBAK"/ 2>/dev/null
+restore() { git -C /repo checkout -- . ; cp -r "$EVBAK"/. /verif/evidence/ 2>/dev/null; rm -rf "$EVBAK"; }
 trap restore EXIT INT TERM
 git -C /repo apply $REV "$PATCH" || { echo "patch does not apply"; exit 3; }
 for p in "$@"; do
